@@ -218,6 +218,24 @@ def rc(cx):
                  mentions(x['args'][1], lambda e: e[0] == 'call' and e[1] in TAKE and e[2] and cell in access_path(e[2][0])[1])]
         res.append(Finding(ID, 'R-c', cx.label(fn), bool(flush), 'pending content (%s) is flushed by take() before completing' % cell if flush else
                            'complete() no longer flushes the pending content (%s): the final item / last buffer is lost' % cell, fn['span']))
+        # ... and on EVERY completing path: either the pending content goes out first, or the path has looked at the pending cell and found nothing
+        if flush:
+            from .. import prov as P
+            try:
+                sums, _ = P.summaries(g, item_arg=0)
+            except Exception:
+                sums = []
+            bad2 = None
+            about = lambda t: P.mentions_v(t, lambda x: isinstance(x, tuple) and x and x[0] == 'old' and cell in x[1])
+            for sm, key in sums:
+                if not P.emits(sm, 'complete'):
+                    continue
+                if any(about(e[2]) for e in P.emits(sm, 'next') if e[2] is not None):
+                    continue
+                if any(about(t) for t, v in sm['conds']):
+                    continue
+                bad2 = 'a path of complete() completes downstream without having looked at the pending content (%s): an item parked for the trailing edge / a partial buffer is silently dropped' % cell
+            res.append(Finding(ID, 'R-c', cx.label(fn) + '|every path', not bad2, bad2 or 'every completing path flushes or has found the pending cell empty', fn['span']))
     for t in FLUSH_ON_COMPLETE:
         if t not in seen:
             res.append(Finding(ID, 'R-c', 'table:' + t, False, 'observer not found (fail closed)'))
